@@ -70,36 +70,36 @@ fn main() {
             "C12" => (
                 Box::new(C12Plan {
                     seed,
-                    seeded: if quick { 2_500 } else { 120_000 },
+                    seeded: if quick { 8_000 } else { 150_000 },
                 }),
                 "exploration",
             ),
             "C16" => (
                 Box::new(C16Plan {
                     seed,
-                    seeded: if quick { 6_000 } else { 250_000 },
+                    seeded: if quick { 15_000 } else { 200_000 },
                 }),
                 "exploration",
             ),
             "C18" => (
                 Box::new(C18Plan {
                     seed,
-                    seeded: if quick { 3_000 } else { 150_000 },
+                    seeded: if quick { 10_000 } else { 200_000 },
                 }),
                 "exploration",
             ),
             "C17" => (
                 Box::new(C17Plan {
                     seed,
-                    seeded_new: if quick { 1_500 } else { 60_000 },
-                    seeded_crash: if quick { 20_000 } else { 1_000_000 },
+                    seeded_new: if quick { 3_000 } else { 60_000 },
+                    seeded_crash: if quick { 30_000 } else { 500_000 },
                 }),
                 "exploration",
             ),
             "C19" => (
                 Box::new(HexPlan {
                     seed,
-                    seeded: if quick { 12_000 } else { 400_000 },
+                    seeded: if quick { 40_000 } else { 400_000 },
                 }),
                 "exploration",
             ),
